@@ -65,13 +65,18 @@ def main():
             os.makedirs(dest, exist_ok=True)
             shutil.copy(diff, os.path.join(dest, "patch.diff"))
             shutil.copy(demo, os.path.join(dest, os.path.basename(demo)))
+            for extra in glob.glob(os.path.join(out_dir, "*.py")):
+                base = os.path.basename(extra)
+                if not base.startswith(("demo", "test_demo", "probe")):
+                    shutil.copy(extra, os.path.join(dest, base))  # helper modules the demo imports
             notes = os.path.join(out_dir, "notes.md")
             if os.path.exists(notes):
                 shutil.copy(notes, os.path.join(dest, "agent_notes.md"))
             meta = {
                 "breaks_property": prop,
                 "origin": "independent sub-agent given only the property text and a scratch worktree",
-                "needs_to_manifest": "see agent_notes.md",
+                "change_in_notes": int(n),
+                "needs_to_manifest": "see agent_notes.md (filled in by tools_seed_readme.py)",
                 "confirmed_by": {
                     "test_suite_with_change": result["suite_with_change"],
                     "demo_with_change": result["demo_with_change"],
